@@ -10,6 +10,24 @@ from .numcommon import mk_num_case, parse_num, model_ints, float_pool, fval, enc
 C_BOUND = 64
 
 
+def proved_cov_bound(et, n, xi, xj, mi, mj, dof):
+    """the bound PROVED for binary64 in Num/CovF64.v (C08_cov_entry_error_means_f64) for ANY evaluation order
+    of the dot product (fused or not) and of the means, instantiated with tree heights h = hm = n; for
+    binary32 the same expression with u = 2^-24, eta = 2^-150 (analogue, not separately proved)"""
+    u = Fraction(1, 2 ** 53) if et == "f64" else Fraction(1, 2 ** 24)
+    eta = Fraction(1, 2 ** 1075) if et == "f64" else Fraction(1, 2 ** 150)
+
+    def g(k):
+        return (1 + u) ** k - 1
+    ei = g(n + 1) * sum(abs(v) for v in xi) / n + eta
+    ej = g(n + 1) * sum(abs(v) for v in xj) / n + eta
+    axy = sum(abs(a - mi) * abs(b - mj) for a, b in zip(xi, xj))
+    adi = sum(abs(a - mi) for a in xi)
+    adj = sum(abs(b - mj) for b in xj)
+    covq = axy + ej * adi + ei * adj + n * ei * ej
+    return (g(n + 5) * covq + (1 + g(2)) * (n * ei * ej + n * (1 + g(n)) * eta)) / abs(dof) + eta
+
+
 class C08(Prop):
     id = "C08"
     imports = ["Run.RunCov"]
@@ -18,13 +36,13 @@ class C08(Prop):
             "data styles incl. large common offset, not exactly representable values and (every fourth case) an extreme common "
             "scale 2^+-40..55 (f32) / 2^+-300..450 (f64) of all or all but one variable, C/F/transposed/stepped inputs. cov: "
             "every entry of the implementation's matrix is compared with the reference model evaluated EXACTLY over Q on the "
-            "dyadic input values (inside Coq) within the assumed bound 64 (n+1) u sum_k|x_ik-m_i||x_jk-m_j| / |n-ddof|; an "
+            "dyadic input values (inside Coq) within the bound PROVED for binary64 in Props/C08_f64.v for every evaluation order of the dot product (fused or not) and of the means (tree heights instantiated by n); an "
             "independent Fraction oracle re-checks it together with symmetry, diagonal >= 0, and for pearson: diagonal 1, "
             "range [-1,1], cov/(sigma sigma), affine invariance and sign flip (each up to roundoff). Non-trivial: >= 2 "
             "variables and >= 3 observations.")
     correspondences = {"cov": "corr:C08/cov/entrywise-bound-against-exact-model", "pearson_correlation": "corr:C08/pearson/(oracle, relational)"}
     trusted_base = ["ndarray mean_axis / dot (matrixmultiply) / std_axis: their operation order (possibly FMA kernels) is not modelled; entries are compared through a bound, not bit for bit"]
-    assumptions = ["the entrywise forward-error bound is ASSUMED (constant 64), not proved", "each variable non-constant for correlation"]
+    assumptions = ["cov (f64): the entrywise bound is the one proved in Num/CovF64.v; f32: the same expression with binary32 constants (analogue, not proved); pearson: tolerances ASSUMED", "each variable non-constant for correlation"]
 
     def gen(self, tier, rng):
         maxobs = 24 if tier == "quick" else 64
@@ -98,9 +116,7 @@ class C08(Prop):
             for i in range(k):
                 for j in range(k):
                     exact = sum((a - means[i]) * (b - means[j]) for a, b in zip(rows[i], rows[j])) / dof
-                    cond = sum(abs(a - means[i]) * abs(b - means[j]) for a, b in zip(rows[i], rows[j]))
-                    scale = sum(abs(a) * abs(b) for a, b in zip(rows[i], rows[j]))
-                    bound = C_BOUND * (n + 1) * fp.u * (cond + fp.u * (n + 1) * scale) / abs(dof)
+                    bound = proved_cov_bound(et, n, rows[i], rows[j], means[i], means[j], dof)
                     g = m[i][j]
                     if not finite(g) or abs(Fraction(g) - exact) > bound:
                         return ["value: cov[%d][%d] = %r, definition %r (|err| %.3e > %.3e)" % (i, j, g, float(exact), float(abs(Fraction(g) - exact)) if finite(g) else float("inf"), float(bound))]
@@ -174,7 +190,7 @@ class C08(Prop):
         v = case.obs["vals"]
         il = "[" + ";".join(zlist(v[i * k:(i + 1) * k]) for i in range(k)) + "]"
         dd = int(enc_vals("f64", [case.ddof])[0])
-        return "chk_cov %d %s %d %s" % (C_BOUND, rl, dd, il)
+        return "chk_cov_proved %s %d %s" % (rl, dd, il)
 
     def model_term(self, case):
         return None
